@@ -38,10 +38,21 @@ def run_wellformed(c):
     model = c["model"]
     unit = model["unit"]
     doc = G.to_text(model) if c["form"] == "text" else G.to_tree(model)
+    doc_before = copy.deepcopy(doc)
     try:
         nl = Netlist(doc)
+        if c["form"] != "text" and c.get("twice"):
+            # the same parsed tree is loaded a second time (a tool may keep the tree and build several netlists from it):
+            # everything below is checked on the SECOND netlist
+            if doc != doc_before:
+                raise Violation("loading a netlist altered the caller's document: %s -> %s" % (doc_before["Nets"], doc["Nets"]), "document-altered")
+            nl = Netlist(doc)
+    except Violation:
+        raise
     except Exception as e:
         raise Violation("well-formed netlist rejected: %s: %s\n%s" % (type(e).__name__, e, G.to_tree(model)), "wellformed-rejected")
+    if doc != doc_before:
+        raise Violation("loading a netlist altered the caller's document: %s -> %s" % (doc_before, doc), "document-altered")
     mods = model["modules"]
     if nl.num_modules != len(mods) or [m.name for m in nl.modules] != [m["name"] for m in mods]:
         raise Violation("modules loaded as %s, defined as %s" % ([m.name for m in nl.modules], [m["name"] for m in mods]), "modules")
@@ -112,7 +123,7 @@ def run_wellformed(c):
     # wire length
     by_name = {m["name"]: m for m in mods}
     centres = {m["name"]: G.exp_center(m, unit) for m in mods}
-    cls = [c["form"]]
+    cls = [c["form"]] + (["tree-loaded-twice"] if c["form"] != "text" and c.get("twice") else [])
     if model["nets"] and all(centres[n] is not None for e in model["nets"] for n in e["m"]):
         total = mpmath.mpf(0)
         for e in model["nets"]:
@@ -263,7 +274,7 @@ def run_illformed(c):
 
 @st.composite
 def well_s(draw):
-    return dict(model=draw(G.netlist_model(max_modules=6)), form=draw(st.sampled_from(["tree", "tree", "text"])))
+    return dict(model=draw(G.netlist_model(max_modules=6)), form=draw(st.sampled_from(["tree", "tree", "text"])), twice=draw(st.booleans()))
 
 
 @st.composite
@@ -275,6 +286,6 @@ def ill_s(draw):
 def subchecks():
     return [
         Sub("wellformed", run_wellformed, strategy=well_s(), n_quick=5000, n_thorough=120000,
-            required=("wire-length", "region-areas", "flat-rectangle", "centre-overridden-by-rectangles", "text", "tree")),
+            required=("wire-length", "region-areas", "flat-rectangle", "centre-overridden-by-rectangles", "text", "tree", "tree-loaded-twice")),
         Sub("illformed", run_illformed, strategy=ill_s(), n_quick=5000, n_thorough=120000, required=tuple(DEFECTS)),
     ]
